@@ -4,3 +4,8 @@
 cd /verif/coq || exit 2
 ls Props/*.v | sed 's#Props/\(.*\)\.v#\1#' | xargs -P 5 -I{} sh -c 'o=$(timeout 3000 coqchk -silent -o -Q . V V.Props.{} 2>&1 | tr "\n" " " | sed "s/  */ /g"); echo "V.Props.{} :: $o"' | sort > /verif/coqchk_report.txt
 grep -c "Axioms: <none>" /verif/coqchk_report.txt; grep -v "Axioms: <none> \* Constants/Inductives relying on type-in-type: <none> \* Constants/Inductives relying on unsafe (co)fixpoints: <none> \* Inductives whose positivity is assumed: <none>" /verif/coqchk_report.txt | cut -c1-300
+
+# one-paragraph summary used by tools/build_design.py
+n=$(wc -l < /verif/coqchk_report.txt); ok=$(grep -c "Axioms: <none> \* Constants/Inductives relying on type-in-type: <none> \* Constants/Inductives relying on unsafe (co)fixpoints: <none> \* Inductives whose positivity is assumed: <none>" /verif/coqchk_report.txt)
+echo "last complete run $(date -u +%Y-%m-%dT%H:%MZ) on /verif $(git -C /verif rev-parse --short HEAD): $ok of $n modules report \`Axioms: <none>\`, no type-in-type, no unsafe (co)fixpoints, no assumed positivity (\`coqchk_report.txt\`)." > /verif/coqchk_summary.txt
+cat /verif/coqchk_summary.txt
